@@ -410,6 +410,26 @@ def r7_validate_vector(ctx):
               "a rejection raises another type or is missing")
 
 
+def _check_defaults(ctx, table):
+    """table: [(function short name, parameter, expected default source text)]"""
+    prog = ctx.prog
+    for fn, param, want in table:
+        f = prog.find_func(fn)
+        if param not in f.params:
+            ctx.violated(f, f.node, f"{fn}: parameter `{param}`", f"parameter `{param}` no longer exists; callers rely on its documented default {want}")
+            continue
+        d = f.param_default(param)
+        got = astx.u(d) if d is not None else "<required>"
+        ctx.check(got == want, f, d if d is not None else f.node, f"{fn}({param}={want}) documented default", got,
+                  f"default of `{param}` is {got}, documented {want}: every caller that omits the argument silently changes behaviour")
+
+
+def r8_defaults(ctx):
+    _check_defaults(ctx, [("score_profile_from_rankings", "to_float", "False"), ("first_place_votes", "to_float", "False"), ("borda_scores", "to_float", "False"),
+                          ("mentions", "to_float", "False"), ("score_profile_from_ballot_scores", "to_float", "False"), ("score_dict_to_ranking", "sort_high_low", "True"),
+                          ("Plurality.__init__", "m", "1"), ("Borda.__init__", "m", "1"), ("Borda.__init__", "score_vector", "None")])
+
+
 RULES = [
     ("C04.R1", r1_exact, 8, "no library-created float reaches a score in the scoring helpers"),
     ("C04.R2", r2_allocation, 6, "allocation formula, slice/step agreement, per-ballot reset, exact zeros, return"),
@@ -417,6 +437,7 @@ RULES = [
     ("C04.R4", r4_padding, 3, "zero padding to the number of candidates; validate/pad/score order; unlisted candidates added"),
     ("C04.R5", r5_grouping_direction, 20, "equal-score grouping, sort by score only, direction flag true for every rule"),
     ("C04.R6", r6_top_m, 9, "single-round rules select the top m through the selector; tuple roles; selector walks from the top"),
+    ("C04.R8", r8_defaults, 9, "documented defaults: exact arithmetic unless to_float, high-to-low ranking, one seat"),
     ("C04.R7", r7_validate_vector, 3, "validate_score_vector polarity and for-all shape"),
 ]
 
